@@ -254,6 +254,19 @@ void stage_procrustes ()
     size_t nUnrel = sets.size (); // the 3-subsets of L(1)^3 and the 4-subsets of the 15-point pool double as "A" of the unrelated pairs
     for (int k = 5; k <= 6; ++k) { combos (pool9, k, sets); combos (pool7, k, sets); }
     if (R ().thorough ()) { combos (L1, 4, sets); combos (lattice (2), 2, sets); }
+    // point sets FAR from the origin relative to their size (offset 2^20, extent 2): the centroid must be removed before
+    // the cross-covariance is accumulated, or the centring cancels catastrophically (error ~ eps * offset^2 / extent^2)
+    const size_t nNear = sets.size ();
+    {
+        std::vector<PSet> far;
+        combos (pool9, 4, far);
+        combos (pool9, 6, far);
+        for (PSet f : far)
+        {
+            for (auto& pt : f) { pt[0] += 1 << 20; pt[1] -= 1 << 20; pt[2] += 1 << 19; }
+            sets.push_back (f);
+        }
+    }
     std::vector<P3> trans = {{{0, 0, 0}}, {{1, -2, 3}}, {{-2, 0, 1}}};
     if (R ().thorough ()) { trans.push_back ({{0, 0, -1}}); trans.push_back ({{2, 2, 2}}); }
     const std::vector<std::vector<int>> rots = ex::cube_rotations ();
@@ -296,6 +309,7 @@ void stage_procrustes ()
     R ().cls ("procrustes.generic-weights", G.weighted);
     R ().cls ("procrustes.repeated-singular-values(symmetric set)", G.symmetric);
     R ().cls ("procrustes.unrelated-sets", G.unrelated);
+    R ().cls ("procrustes.sets-far-from-origin(offset 2^20)", (long long) (sets.size () - nNear));
     R ().note_max ("worst procrustes |M - known transform| / bound", G.w_known);
     R ().note_max ("worst procrustes residual / bound", G.w_res);
     R ().note_max ("worst residual decrease under rotation perturbation / (2^-30 residual)", G.w_opt);
